@@ -119,7 +119,9 @@ type vside struct {
 	Depth     int
 }
 
-func (s *vside) name() string { return fmt.Sprintf("%s#%d/%s", cfgx.KindAbbrev(s.V.Kind), s.VIdx, s.Side) }
+func (s *vside) name() string {
+	return fmt.Sprintf("%s#%d/%s", cfgx.KindAbbrev(s.V.Kind), s.VIdx, s.Side)
+}
 
 func (s *vside) placement() string {
 	switch {
